@@ -549,6 +549,43 @@ class Verdict:
         return bool(self.equal)
 
 
+GUARD_POINTS = True
+
+
+def guard_points(terms, names, rng, samplers):
+    """points on the boundaries the code itself tests: for every comparison of a free symbol with a numeric constant in the terms
+    (`s == c`, `s < c`, ...), sample points with s = c -- a generic random point never takes a branch guarded by an equality.
+    Only symbols drawn from the default domain (all reals) are moved: a symbol with its own sampler has a restricted domain that
+    the constant may lie outside of."""
+    special = {}
+    seen = set()
+    for t in terms:
+        for nd in walk(t, seen):
+            if nd.op in ("eq", "ne", "lt", "le", "gt", "ge") and len(nd.args) == 2:
+                for x, y in ((nd.args[0], nd.args[1]), (nd.args[1], nd.args[0])):
+                    if isinstance(x, T) and x.op == "sym" and x.args[0] in names and not (samplers and x.args[0] in samplers):
+                        c = cval(y)
+                        if isinstance(c, (int, float)) and not isinstance(c, bool) and abs(c) <= 40:
+                            special.setdefault(x.args[0], set()).add(float(c))
+    envs = []
+    if not special:
+        return envs
+    keys = sorted(special)
+    for rep in range(4):  # all guarded symbols on a boundary at once
+        env = sample_env(names, rng, samplers)
+        for k in keys:
+            cs = sorted(special[k])
+            env[k] = cs[int(rng.integers(0, len(cs)))]
+        envs.append(env)
+    for k in keys:  # one at a time
+        for c in sorted(special[k])[:3]:
+            for rep in range(2):
+                env = sample_env(names, rng, samplers)
+                env[k] = c
+                envs.append(env)
+    return envs[:24]
+
+
 def equivalent(a, b, samplers=None, n=24, tol=1e-7, extra_envs=(), seed_tag="", need=None, relation=None):
     """Random interpretation: are the two terms equal as functions of their free symbols?  (`relation`, if given, replaces
     equality: a predicate on the two evaluated values that must hold at every point)"""
@@ -558,6 +595,10 @@ def equivalent(a, b, samplers=None, n=24, tol=1e-7, extra_envs=(), seed_tag="", 
     rng = np.random.default_rng([SEED, int(hashlib.md5(("eq" + seed_tag).encode()).hexdigest()[:8], 16)])
     good = 0
     envs = [dict(e) for e in extra_envs]
+    if GUARD_POINTS and not lattice_only:
+        gp = guard_points([a, b], names, rng, samplers)
+        envs += gp
+        n += len(gp)
     tries = 0
     while good < n and tries < 6 * n + len(envs):
         if lattice_only and not envs:
